@@ -115,7 +115,7 @@ def oracle(line, evs, meta):
 def run(chk):
     stun_common.run_stun(chk, "Props/Properties_C03.v", ["auth", "resp", "hostile"], ("C04",), 600, 30000, "stun-C03")
     gate_tie(chk)
-    n = 300 if chk.tier == "quick" else 20000
+    n = 800 if chk.tier == "quick" else 40000
     cases = [sc.gen_attack(chk.rng, i) for i in range(n)]
     sc.run_sim(chk, cases, oracle, "sim-C03")
     return chk.finish(**FINISH)
